@@ -6,6 +6,7 @@ import NmVerif.Props.C06
 import NmVerif.Props.C07
 import NmVerif.Props.C08
 import NmVerif.Props.C17
+import NmVerif.Lemmas.Capacity
 /-
   C02 — Element access through arrays and views never leaves the operands' storage.
 
@@ -616,5 +617,159 @@ example : Reduce.removeDims [2,3,4] (some [0,-1]) false = some [3] ∧ shapePad 
 example : shapeConcatenate [2,3] [2,1] 1 = (true, [2,4]) ∧ shapeRepeat [2,3] 2 (-1) = some [2,6] := by decide
 
 end Chains
+
+/-! ## capacity, second part: the remaining index functions with bounded results
+
+The bound is the one the result-type metafunction picks (`NmVerif.Cap.*`, Index/Capacity.lean — compared with
+`meta::bounded_size_v` of the real result type on every run by harness/h_c02cap.cpp); `bS`, `bA`, … are the capacities of
+the operand containers.  Each theorem: whatever the function writes fits. -/
+section Capacity2
+open NmVerif NmVerif.Cap
+
+/-- `index::shape_expand_dims`: `len(shape) + len(axes)` entries into `static_vector<_, B_N + B_M>` (an integer axis: `B_N + 1`) -/
+theorem shapeExpandDims_len_le_cap (s : Shape) (axes : List Int) (r : Shape) (bS bA : Nat)
+    (h : shapeExpandDims s axes = some r) (hs : s.length ≤ bS) (ha : axes.length ≤ bA) :
+    r.length ≤ capExpandDims bS bA := by
+  rw [CapL.shapeExpandDims_length s axes r h]; simp only [capExpandDims]; omega
+
+/-- `index::shape_squeeze` -/
+theorem shapeSqueeze_len_le_cap (s : Shape) (bS : Nat) (hs : s.length ≤ bS) : (shapeSqueeze s).length ≤ capSame bS :=
+  Nat.le_trans (List.length_filter_le _ _) hs
+
+/-- `index::remove_single_dims` -/
+theorem removeSingleDims_len_le_cap (s : Shape) (bS : Nat) (hs : s.length ≤ bS) : (removeSingleDims s).length ≤ capSame bS :=
+  Nat.le_trans (List.length_filter_le _ _) hs
+
+/-- `index::shape_sliding_window`, every argument form (window list / scalar window = the one-element list with `bW = 1`;
+    axis list, single axis, None): `len(shape) + len(window)` entries into `static_vector<_, src_b_dim + b_window_dim>` -/
+theorem shapeSlidingWindow_len_le_cap (s ws : List Nat) (axes : Option (List Int)) (scalarW : Bool) (r : Shape) (bS bW : Nat)
+    (h : Index.shapeSlidingWindow s ws axes scalarW = some r) (hs : s.length ≤ bS) (hw : ws.length ≤ bW) :
+    r.length ≤ capSlidingWindow bS bW := by
+  rw [CapL.shapeSlidingWindow_length s ws axes scalarW r h]; simp only [capSlidingWindow]; omega
+
+/-- `index::shape_take` with an integer axis: the result container is the shape's own type -/
+theorem shapeTake_len_le_cap (s : Shape) (nIdx : Nat) (axis : Int) (bS : Nat) (hs : s.length ≤ bS) :
+    (Index.shapeTake s nIdx axis).length ≤ capSame bS := by
+  simp only [Index.shapeTake, Index.mapAt_length]; exact hs
+
+/-- `index::shape_slice` (packed slices): `dim - #integers` entries -/
+theorem shapeSlice_len_le_cap (s : List Nat) (es : List Slice.Entry) (r : List Nat) (bS : Nat)
+    (h : Slice.shapeSlice s es = some r) (hs : s.length ≤ bS) : r.length ≤ capSame bS :=
+  Nat.le_trans (CapL.shapeSlice_length_le s es r h) hs
+
+/-- `index::shape_dynamic_slice` (run-time list of slices) -/
+theorem shapeDynamicSlice_len_le_cap (s : List Nat) (es : List Slice.Entry) (r : List Nat) (bS : Nat)
+    (h : Slice.shapeDynamicSlice s es = some r) (hs : s.length ≤ bS) : r.length ≤ capSame bS :=
+  Nat.le_trans (CapL.shapeDynamicSlice_length_le s es r h) hs
+
+/-- `index::moveaxis_to_transpose`: `dim` entries into `static_vector<_, B_DIM>` (B_DIM the bound of the SHAPE) -/
+theorem moveaxisToTranspose_len_le_cap (s : Shape) (source destination : List Int) (r : List Nat) (bS : Nat)
+    (h : moveaxisToTranspose s.length source destination = some r) (hs : s.length ≤ bS) : r.length ≤ capSame bS := by
+  rw [CapL.moveaxisToTranspose_length _ _ _ _ h]; exact hs
+
+/-- `index::normalize_axis` on an axis list: one entry per axis into `static_vector<_, B_DIM>` (B_DIM the bound of the AXES) -/
+theorem normalizeAxes_len_le_cap (ndim : Nat) (axes : List Int) (r : List Nat) (bA : Nat)
+    (h : normalizeAxes ndim axes = some r) (ha : axes.length ≤ bA) : r.length ≤ capSame bA := by
+  unfold normalizeAxes at h
+  rw [mapM_some_length _ _ _ h]; exact ha
+
+/-- `index::shape_roll` -/
+theorem shapeRoll_len_le_cap (s : Shape) (axes : List Int) (r : Shape) (bS : Nat)
+    (h : Index.shapeRoll s axes = some r) (hs : s.length ≤ bS) : r.length ≤ capSame bS := by
+  simp only [Index.shapeRoll] at h
+  split at h
+  · simp only [Option.some.injEq] at h; subst h; exact hs
+  · cases h
+
+/-- `index::shape_resize`: the result is sized by the TARGET shape and bounded by the target's bound -/
+theorem shapeResize_len_le_cap (s dst r : Shape) (bD : Nat)
+    (h : Index.shapeResize s dst = some r) (hd : dst.length ≤ bD) : r.length ≤ capSame bD := by
+  simp only [Index.shapeResize] at h
+  split at h
+  · simp only [Option.some.injEq] at h; subst h; exact hd
+  · cases h
+
+/-- `index::shape_expand` (view/expand.hpp), any axis / spacing lists -/
+theorem shapeExpand_len_le_cap (s : Shape) (ks sps : List Nat) (bS : Nat) (hs : s.length ≤ bS) :
+    (Index.shapeExpand s ks sps).length ≤ capSame bS := by
+  rw [CapL.shapeExpand_length]; exact hs
+
+/-- `index::shape_diagonal` (view/diagonal.hpp): `dim - 1` entries into `static_vector<_, B_DIM - 1>` for two DIFFERENT axes -/
+theorem shapeDiagonal_len_le_cap (s : Shape) (off : Int) (a1 a2 : Nat) (r : Shape) (bS : Nat) (hne : a1 ≠ a2)
+    (h : Index.shapeDiagonal s off a1 a2 = some r) (hs : s.length ≤ bS) : r.length ≤ capDiagonal bS := by
+  have := CapL.shapeDiagonal_length s off a1 a2 r hne h
+  simp only [capDiagonal]; omega
+
+/-- known finding `diagonal.equal-axes`: the hypothesis `a1 ≠ a2` above is NOT checked by the code.  With both axes equal
+    `shape_diagonal` skips one axis only and writes `dim` entries into a container sized (and, bounded, capped) for `dim - 1`:
+    `view::diagonal(a(2,3), 0, 0, 0)` writes 2 entries where the bound of a rank-2 shape at full capacity allows 1 -/
+theorem shapeDiagonal_equal_axes_counterexample :
+    ∃ r, Index.shapeDiagonal [2,3] 0 0 0 = some r ∧ ¬ (r.length ≤ capDiagonal 2) := ⟨[3,2], by decide, by decide⟩
+
+/-- `index::shape_matmul` (view/matmul.hpp): at most `max(len a, len b)` entries into `static_vector<_, max(B_a, B_b)>` -/
+theorem shapeMatmul_len_le_cap (a b r : Shape) (bA bB : Nat) (h : shapeMatmul a b = some r)
+    (ha : a.length ≤ bA) (hb : b.length ≤ bB) : r.length ≤ capMatmul bA bB := by
+  have := CapL.shapeMatmul_length_le a b r h
+  simp only [capMatmul]; omega
+
+/-- `index::shape_pool2d` -/
+theorem shapePool2d_len_le_cap (s k st : List Nat) (c : Bool) (r : Shape) (bS : Nat)
+    (h : NN.shapePool2d s k st c = some r) (hs : s.length ≤ bS) : r.length ≤ capSame bS := by
+  rw [CapL.shapePool2d_length s k st c r h]; exact hs
+
+/-! ### index maps: the source index a view hands to its operand is held by a container bounded like the SOURCE shape
+(`static_vector<_, bounded_size_v<src_shape_t>>` in `resolve_optype<sliding_window_t | roll_t | resize_t | expand_t |
+diagonal_t | take_t>`): it never has more entries than the source has axes -/
+
+theorem indexSlidingWindow_len_le_cap (d : Idx) (s : Shape) (axes : Option (List Int)) (r : Idx) (bS : Nat)
+    (h : Index.indexSlidingWindow d s.length axes = some r) (hs : s.length ≤ bS) : r.length ≤ capSame bS :=
+  Nat.le_trans (CapL.indexSlidingWindow_length_le d s.length axes r h) hs
+
+theorem indexRoll_len_le_cap (s : Shape) (d : Idx) (shifts axes : List Int) (r : Idx) (bS : Nat)
+    (h : Index.indexRollU s d shifts axes = some r) (hd : d.length = s.length) (hs : s.length ≤ bS) :
+    r.length ≤ capSame bS := by
+  rw [CapL.indexRollLoop_length s d axes shifts d r h, hd]; exact hs
+
+theorem indexResize_len_le_cap (d : Idx) (s dst : Shape) (bS : Nat) (hs : s.length ≤ bS) :
+    (Index.indexResize d s dst).length ≤ capSame bS :=
+  Nat.le_trans (CapL.indexResize_length_le d s dst) hs
+
+theorem indexExpand_len_le_cap (d : Idx) (s : Shape) (ks sps : List Nat) (r : Idx) (bS : Nat)
+    (h : Index.indexExpand d ks sps = some r) (hd : d.length = s.length) (hs : s.length ≤ bS) : r.length ≤ capSame bS := by
+  rw [CapL.indexExpand_length d ks sps r h, hd]; exact hs
+
+theorem indexDiagonal_len_le_cap (s : Shape) (d : Idx) (off : Int) (a1 a2 : Nat) (r : Idx) (bS : Nat)
+    (h : Index.indexDiagonal s d off a1 a2 = some r) (hs : s.length ≤ bS) : r.length ≤ capSame bS := by
+  rw [CapL.indexDiagonal_length s d off a1 a2 r h]; exact hs
+
+theorem indexTake_len_le_cap (d : Idx) (s : Shape) (indices : List Int) (axis : Int) (bS : Nat)
+    (hd : d.length = s.length) (hs : s.length ≤ bS) : (Index.indexTake d s indices axis).length ≤ capSame bS := by
+  simp only [Index.indexTake, Index.mapAt_length, hd]; exact hs
+
+example : Index.indexSlidingWindow [1,0,2,1,1,0,1] 4 (some [0,-1,1]) = some [2,1,2,1] := by decide
+example : Index.indexRollU [5,6,7,8] [0,1,2,3] [1,2,3] [0,-1,1] = some [4,4,2,1] := by decide
+example : Index.indexResize [2,1,0,3] [5,6,7,8] [3,2,1,4] = [3,3,0,6] := by decide
+example : Index.indexExpand [2,0,1,3] [0,3,1] [1,2,1] = some [1,0,1,1] := by decide
+example : Index.indexDiagonal [5,6,7,8] [1,2,3] 1 0 3 = some [3,1,2,4] := by decide
+example : Index.indexTake [1,2,0,3] [5,6,7,8] [2,-1,0] (-2) = [1,2,2,3] := by decide
+
+/-! non-vacuity: every operand AT FULL CAPACITY (rank-4 shape in a container bounded by 4, three axes in a container bounded
+    by 3) — the hypotheses hold and the result fills the bound exactly where the function adds axes -/
+example : shapeExpandDims [2,3,4,5] [0,2,-1] = some [1,2,1,3,4,5,1] ∧ [1,2,1,3,4,5,1].length = capExpandDims 4 3 := by decide
+example : shapeSqueeze [2,1,3,1] = [2,3] ∧ removeSingleDims [2,1,3,1] = [2,3] := by decide
+example : Index.shapeSlidingWindow [5,6,7,8] [2,3,2] (some [0,-1,1]) false = some [4,5,7,6,2,3,2] ∧ 7 = capSlidingWindow 4 3 := by decide
+example : Index.shapeSlidingWindow [5,6,7,8] [3] none true = some [3,4,5,6,3] ∧ 5 = capSlidingWindow 4 1 := by decide
+example : Index.shapeTake [5,6,7,8] 3 (-2) = [5,6,3,8] := by decide
+example : Slice.shapeDynamicSlice [5,6] [.range (some 0) (some 3) (some 1), .range (some 1) (some 6) (some 2)] = some [3,3] := by decide
+example : Slice.shapeSlice [5,6,7] [.int 1, .ellipsis, .range (some 0) (some 4) (some 2)] = some [6,2] := by decide
+example : moveaxisToTranspose 4 [0,1,-1] [2,0,1] = some [1,3,0,2] := by decide
+example : normalizeAxes 4 [0,-1,2,1] = some [0,3,2,1] := by decide
+example : Index.shapeRoll [5,6,7,8] [0,-1,1] = some [5,6,7,8] ∧ Index.shapeResize [5,6,7,8] [2,3,4,5] = some [2,3,4,5] := by decide
+example : Index.shapeExpand [5,6,7,8] [0,3,1] [1,2,1] = [9,11,7,22] := by decide
+example : Index.shapeDiagonal [5,6,7,8] 1 0 3 = some [6,7,5] ∧ 3 = capDiagonal 4 := by decide
+example : shapeMatmul [5,6,7,8] [8,3] = some [5,6,7,3] ∧ shapeMatmul [8] [5,6,8,3] = some [5,6,3] ∧ 4 = capMatmul 4 2 := by decide
+example : NN.shapePool2d [2,3,8,9] [2,3] [2,2] true = some [2,3,4,4] := by decide
+
+end Capacity2
 
 end NmVerif.Props.C02
